@@ -213,11 +213,22 @@ def run(spec, ctx):
     root = harness.scratch_root()
     for i in range(spec["n"]):
         ents = dirs.gen_dir_model(rng, u, rng.randrange(1, 6))
+        if i % 3 == 0:      # a file of several KiB (more than one read / write buffer)
+            big = ents[0].pel
+            for _ in range(rng.choice([1, 3, 15])):
+                big.sections.append(pm.sec_generic(rng, u, b"EI", pm.gen_payload(rng, u, 4096)))
+            ents[0].data = big.encode()
         d = dirs.PelDir(os.path.join(root, "d%d" % i))
         d.extend(ents)
         for argv, want in ((["-p", d.root, "-a", "-x", "-E"], [e.data for e in sorted(ents, key=lambda e: e.name)]),
                            (["-f", ents[0].path, "-x", "-E"], [ents[0].data]),
-                           (["-p", d.root, "-l", "-x", "-E", "-r"], [e.data for e in sorted(ents, key=lambda e: e.name, reverse=True)])):
+                           (["-p", d.root, "-l", "-x", "-E", "-r"], [e.data for e in sorted(ents, key=lambda e: e.name, reverse=True)]),
+                           (["-p", d.root, "-l", "-x", "-E"], [e.data for e in sorted(ents, key=lambda e: e.name)]),
+                           (["-p", d.root, "--plid", "%08X" % ents[0].pel.plid, "-x"],
+                            [e.data for e in sorted(ents, key=lambda e: e.name) if e.pel.plid == ents[0].pel.plid]),
+                           (["-p", d.root, "--src", "B", "-x"],
+                            [e.data for e in sorted(ents, key=lambda e: e.name) if e.pel.primary_src() and "B" in e.pel.primary_src().m["refcode"]]),
+                           (["-p", d.root, "--bmc-id", str(ents[0].pel.bmcid), "-x"], [ents[0].data])):
             ctx.current = {"argv": argv}
             ctx.case(repr(argv) + repr([e.name for e in ents]) + str(spec["rseed"]), True)
             rc, out, err, tb = harness.cli(argv)
